@@ -88,14 +88,18 @@ func init() {
 	registerMapAppendFunc(tI64, tMAP, appendMap_I64_Other)
 	registerMapAppendFunc(tI64, tSET, appendMap_I64_Other)
 	registerMapAppendFunc(tI64, tLIST, appendMap_I64_Other)
-	registerMapAppendFunc(tDOUBLE, tBOOL, appendMap_I64_BOOL)
-	registerMapAppendFunc(tDOUBLE, tBYTE, appendMap_I64_I08)
-	registerMapAppendFunc(tDOUBLE, tI16, appendMap_I64_I16)
-	registerMapAppendFunc(tDOUBLE, tI32, appendMap_I64_I32)
-	registerMapAppendFunc(tDOUBLE, tI64, appendMap_I64_I64)
-	registerMapAppendFunc(tDOUBLE, tDOUBLE, appendMap_I64_I64)
-	registerMapAppendFunc(tDOUBLE, tENUM, appendMap_I64_ENUM)
-	registerMapAppendFunc(tDOUBLE, tSTRING, appendMap_I64_STRING)
+	// NOTE: float64 keys can't share the native map[uint64]V loops of tI64:
+	// ranging over a map that is still growing rehashes its keys with the hash
+	// func of the static key type, and float64 and uint64 hash differently.
+	// Use the reflect based iterator (which knows the real map type) for them.
+	registerMapAppendFunc(tDOUBLE, tBOOL, appendMap_Other_BOOL)
+	registerMapAppendFunc(tDOUBLE, tBYTE, appendMap_Other_I08)
+	registerMapAppendFunc(tDOUBLE, tI16, appendMap_Other_I16)
+	registerMapAppendFunc(tDOUBLE, tI32, appendMap_Other_I32)
+	registerMapAppendFunc(tDOUBLE, tI64, appendMap_Other_I64)
+	registerMapAppendFunc(tDOUBLE, tDOUBLE, appendMap_Other_I64)
+	registerMapAppendFunc(tDOUBLE, tENUM, appendMap_Other_ENUM)
+	registerMapAppendFunc(tDOUBLE, tSTRING, appendMap_Other_STRING)
 	registerMapAppendFunc(tDOUBLE, tSTRUCT, appendMap_I64_Other)
 	registerMapAppendFunc(tDOUBLE, tMAP, appendMap_I64_Other)
 	registerMapAppendFunc(tDOUBLE, tSET, appendMap_I64_Other)
